@@ -162,6 +162,7 @@ pub fn replay(input: &str, output: &str) {
     let mut evals = 0u64;
     let mut nontrivial = 0u64;
     let tol = 1e-9;
+    let mut previous_wrapper: Option<Arc<dyn Kinematics>> = None;
     for (id, line) in lines.iter().enumerate() {
         let layers: Vec<Value> = line["layers"].as_array().unwrap().clone();
         let sh = shape(&layers);
@@ -271,6 +272,8 @@ pub fn replay(input: &str, output: &str) {
         let leaf = Arc::new(OPWKinematics::new(p));
         let built = build(&layers, leaf.clone());
         if let Built::Kin(k) = &built {
+            if let Some(pw) = &previous_wrapper { let _ = guarded(|| (pw.forward(&q), pw.forward_with_joint_poses(&q))); }
+            previous_wrapper = Some(k.clone());
             let f = Iso::from_na(&k.forward(&q));
             evals += 1;
             let (dp, dr) = lattice::iso_max_diff(&f, &want_pose);
